@@ -7,7 +7,7 @@
 (* the operators they use, so a malformed value is a failed clause and     *)
 (* never a TLC evaluation error.                                           *)
 (***************************************************************************)
-EXTENDS FMMetrics
+EXTENDS FMMetrics, FMEq
 
 \* A clause is <<name, truth>> or <<name, truth, why>>: `why` names the deviation
 \* (a known finding modelled in the specification) that explains a failure, or "".
@@ -20,7 +20,7 @@ Why(label, explains) == IF explains THEN label ELSE ""
 Guarded(g, cs) == IF g THEN cs ELSE <<>>
 
 EmptyModel == [root |-> "", feats |-> <<>>, rels |-> <<>>, ctcs |-> <<>>]
-InitCur == [model |-> EmptyModel, memo |-> <<>>]
+InitCur == [model |-> EmptyModel, memo |-> <<>>, other |-> EmptyModel]
 
 BuilderActions == {"NewModel", "AddRelation", "SetAbstract", "SetType", "SetFCard",
                    "AddAttribute", "AddConstraint"}
@@ -225,6 +225,39 @@ GenAttrClauses(cur, e) ==
                 /\ [p.feats[i] EXCEPT !.attrs = <<>>] = [m.feats[i] EXCEPT !.attrs = <<>>]>> >>)
 
 ---------------------------------------------------------------------------
+(* Equality and hashing (C20).  e.post / e.other are the projections of    *)
+(* the two independently built models; e.ret holds == both ways, !=, hash  *)
+(* agreement and x == x for the models and for every pair of features,     *)
+(* relations and constraints.                                              *)
+PairClauses(p, q, expected) ==
+  << <<p \o ".refl", q.refl>>,
+     <<p \o ".sym",  q.eq = q.qe>>,
+     <<p \o ".ne",   q.ne = ~q.eq>>,
+     <<p \o ".hash", q.eq => q.h>>,
+     <<p \o ".perm", expected => q.eq>>,
+     <<p \o ".edit", ~expected => ~q.eq>> >>
+CompareClauses(cur, e) ==
+  LET a == e.post
+      b == e.other
+      R == e.ret
+      ok == e.anom = <<>> /\ WellFormedTree(a) /\ WellFormedTree(b)
+            /\ Len(R.feats) = Len(a.feats) * Len(b.feats) /\ Len(R.rels) = Len(a.rels) * Len(b.rels)
+            /\ Len(R.ctcs) = Len(a.ctcs) * Len(b.ctcs)
+  IN
+  << <<"C20.total", R.errors = <<>> >>,
+     <<"C20.compare.shape", ok>>,
+     <<"C20.compare.left",  a = cur.model>>,
+     <<"C20.compare.right", SpecEq(b, cur.other) /\ SameBag(b.feats, cur.other.feats)>> >>
+  \o Guarded(ok,
+       PairClauses("C20.model", R.model, SpecEq(a, b))
+       \o Concat([k \in DOMAIN R.feats |-> PairClauses("C20.feature", R.feats[k],
+                      a.feats[R.feats[k].i].name = b.feats[R.feats[k].j].name)])
+       \o Concat([k \in DOMAIN R.rels |-> PairClauses("C20.relation", R.rels[k],
+                      RelEq(a.rels[R.rels[k].i], b.rels[R.rels[k].j]))])
+       \o Concat([k \in DOMAIN R.ctcs |-> PairClauses("C20.constraint", R.ctcs[k],
+                      a.ctcs[R.ctcs[k].i].ast = b.ctcs[R.ctcs[k].j].ast)]))
+
+---------------------------------------------------------------------------
 ClassifyEventClauses(cur, e) ==
   << <<"C18.classify.sameast", e.ret.ast = e.args.ast>> >> \o ClassifyClauses(e.ret)
 
@@ -235,6 +268,8 @@ Clauses(cur, e) ==
     [] e.a = "Classify"       -> ClassifyEventClauses(cur, e)
     [] e.a = "Exec"           -> ExecClauses(cur, e)
     [] e.a = "GenAttr"        -> GenAttrClauses(cur, e)
+    [] e.a = "Compare"        -> CompareClauses(cur, e)
+    [] e.a = "Other"          -> << <<"T.other", TRUE>> >>
     [] OTHER                  -> << <<"T.unknown-action", FALSE>> >>
 
 Advance(cur, e) ==
@@ -242,5 +277,6 @@ Advance(cur, e) ==
     [] e.a = "Exec" -> [cur EXCEPT !.model = e.post,
                                    !.memo = Append(@, [op |-> e.args.op, f |-> e.args.f, model |-> cur.model,
                                                        out |-> e.out, ret |-> e.ret])]
+    [] e.a = "Other" -> [cur EXCEPT !.other = e.args.model]
     [] OTHER -> cur
 =============================================================================
